@@ -48,6 +48,12 @@ CLAIMED = {
             'coefficient sign plus the violated bound; the epsilon table of negated assertions; tableau/watch/value writers and the arithmetic of pivot, update and pivot_and_update. '
             'Termination of the simplex and the model property on arbitrary histories are not decided.',
             'One accepted asymmetry (row::propagate_ub tests lb(v) instead of lb(c_v), benign) is listed by name in orv/rules/C09.py.', 'DESIGN.md 4 C09'),
+    'C15': ('symbolic field-dependency analysis with polarity of every arithmetic operator of lin / inf_rational on every path, compared with the algebra; fresh-container .at() typestate; dual/delegation patterns of rational',
+            'Static: for all 45 operator paths of smt::lin and smt::inf_rational the symbolic value of each result field equals the algebra of the operator (sign, which field a scalar goes to, scaling of every '
+            'coefficient and the constant), which also forces const and compound forms to agree; no .at() on a container created empty in the same function; rational comparisons are mutual duals, '
+            'subtraction/division delegate to addition/multiplication of the negated / sign-normalised reciprocal operand; normalize() canonicalises. '
+            'Canonical form on all values, comparisons between opposite infinities and overflow are not decided.',
+            'The special-value fast paths (x*0, x/inf) are accepted when guarded by an explicit test of the scalar.', 'DESIGN.md 4 C15'),
 }
 
 NOT_YET = {}
